@@ -176,6 +176,20 @@ def effects(ctx) -> Effects:
     return ctx.src._verif_eff
 
 
+def _mentioned(prog, owner, fname, field):
+    """is the state field defined in its owner's class body or read anywhere in the package?"""
+    import ast
+    for st in owner.node.body:
+        tgts = st.targets if isinstance(st, ast.Assign) else ([st.target] if isinstance(st, ast.AnnAssign) else [])
+        if any(isinstance(t, ast.Name) and t.id in (fname, field) for t in tgts):
+            return True
+    for f in prog.all_functions():
+        for n in ast.walk(f.node):
+            if isinstance(n, ast.Attribute) and n.attr in (fname, field):
+                return True
+    return False
+
+
 def check_own(ctx, fields, actual=None):
     """fields like 'Vertex._links' / 'TrueSingleton.__singleton_instances'; `actual` maps a spec to the field's name in this
     tree when it was located by role."""
@@ -195,6 +209,11 @@ def check_own(ctx, fields, actual=None):
             pass
         ws = eff.writers(field)
         if not ws:
+            if _mentioned(prog, owner, fname, field):
+                # defined in the class body / read into a local and changed in place through that alias: OWN sees no writer at all
+                # (neither an owner's nor a foreign one); the abstract evaluation of the entry points decides on its own
+                res.note(f"OWN: no statement writes {spec} directly (it is defined in the class body and changed in place through local aliases); the premise is not used for it")
+                continue
             raise SourceError(f"anchor state {spec}: no statement in the package writes a field named {field}")
         hier = set(c.qual for c in prog.subclasses(owner)) | {owner.qual}
         for w in ws:
